@@ -10,8 +10,8 @@
    model does ([orel]); for the functions that start from DisplayBuffer::default() this is
    an equation through [rn_dbuf_abs] (= DisplayBuffer::as_str). *)
 From Coq Require Import NArith Arith List Bool Lia.
-From AV Require Import Generated.Style Generated.Render Spec.Sgr Model.Base Model.Imp Model.Style Model.Render
-  Generated.RenderFn Proofs.ParamsSim Proofs.Render.
+From AV Require Import Generated.Style Generated.Render Spec.Vt Spec.Strip Spec.Sgr Spec.Algebra Spec.Render Spec.Io Model.Base Model.Imp Model.Style Model.Render
+  Generated.StyleFn Generated.RenderFn Proofs.ParamsSim Proofs.StreamIo Proofs.StyleGen Proofs.Render.
 Import ListNotations.
 Local Open Scope N_scope.
 
@@ -266,6 +266,9 @@ Definition gr_color_ul_buffer (c : color) : option rn_dbuf := gr_color_render_un
 Lemma bind_some_id {A} (x : option A) : (v <- (r <- x ;; Some r) ;; Some v) = x.
 Proof. destruct x; reflexivity. Qed.
 
+Lemma bind_some_id' {A} (x : option A) : (r <- x ;; Some r) = x.
+Proof. destruct x; reflexivity. Qed.
+
 (* the bytes a translated buffer shows: as_str of the result *)
 Definition gr_shown (x : option rn_dbuf) : option (list N) := d <- x ;; gr_as_str d.
 
@@ -302,3 +305,633 @@ Proof. apply gr_write_str_sim. Qed.
 Lemma translated_write_code (d : rn_dbuf) (b : rn_buf) (code : N) :
   dbuf_rel d b -> orel (gr_write_code d code) (rn_write_code b code).
 Proof. apply gr_write_code_sim. Qed.
+
+(* ==== sinks: `&mut dyn io::Write` and the `dyn fmt::Write` inside a Formatter ========================
+   Both are scripted: a write may fail.  The hand model keeps the list of fragments handed to the sink
+   ([rn_writer], Model/Render.v: the buffers of Style::write_to) and has no failing sink.  Generic in the sink
+   [W], its "write one fragment" [wa] and the predicate "never fails" [acc]:
+   [wr_bufs w bufs]: the fragments written one after the other, the first error stops. *)
+Section Sink.
+Context {W E : Type} (wa : W -> list N -> W * (unit + E)) (acc : W -> Prop).
+Hypothesis acc_ok : forall w b, acc w -> exists w1, wa w b = (w1, inl tt) /\ acc w1.
+
+Definition sres : Type := (W * (unit + E))%type.
+
+Definition wr_step (st : sres) (b : list N) : sres :=
+  match snd st with inl _ => wa (fst st) b | inr _ => st end.
+Definition wr_from (st : sres) (bufs : list (list N)) : sres := fold_left wr_step bufs st.
+Definition wr_bufs (w : W) (bufs : list (list N)) : sres := wr_from (w, inl tt) bufs.
+
+Lemma wr_from_err w e bufs : wr_from (w, inr e) bufs = (w, inr e).
+Proof. induction bufs as [|b t IH]; [reflexivity|]. exact IH. Qed.
+
+Lemma wr_from_app st a b : wr_from st (a ++ b) = wr_from (wr_from st a) b.
+Proof. apply fold_left_app. Qed.
+
+Lemma wr_bufs_cons w b t : wr_bufs w (b :: t) = wr_from (wa w b) t.
+Proof. reflexivity. Qed.
+
+(* a sink that never fails takes every fragment and stays that way *)
+Lemma wr_bufs_acc bufs : forall w, acc w -> exists o, wr_bufs w bufs = (o, inl tt) /\ acc o.
+Proof.
+  induction bufs as [|b t IH]; intros w Ha.
+  - exists w. auto.
+  - destruct (acc_ok w b Ha) as (w1 & E1 & Ha1). destruct (IH w1 Ha1) as (o & Eo & Hao). exists o.
+    rewrite wr_bufs_cons, E1. auto.
+Qed.
+
+(* a translated writing function [G] against a hand-model function [H] on the list of fragments: when the hand
+   model answers, [G] writes exactly the fragments the hand model appends, on ANY sink (errors included:
+   the first one is returned, nothing more is written); when the hand model panics, [G] panics on a sink
+   that never fails (on a failing sink it may return the error before it reaches the panic) *)
+Definition wsim (G : W -> option sres) (H : rn_writer -> option rn_writer) : Prop :=
+  forall w bufs0,
+    match H bufs0 with
+    | Some bufs1 => exists ext, bufs1 = bufs0 ++ ext /\ G w = Some (wr_bufs w ext)
+    | None => acc w -> G w = None
+    end.
+
+(* `a?; b` *)
+Definition seqw (G1 G2 : W -> option sres) (w : W) : option sres :=
+  match G1 w with
+  | Some (o, inl _) => G2 o
+  | Some (o, inr e) => Some (o, inr e)
+  | None => None
+  end.
+Definition retw (w : W) : option sres := Some (w, inl tt).
+(* `if let Some(c) = slot { G(c)?; }` *)
+Definition oslot (G : rn_color_view -> W -> option sres) (o : option rn_color_view) (w : W) : option sres :=
+  match o with Some c => G c w | None => Some (w, inl tt) end.
+
+Lemma wsim_ret : wsim retw (fun b => Some b).
+Proof. intros w b0. exists []. rewrite app_nil_r. auto. Qed.
+
+Lemma wsim_seq G1 G2 H1 H2 : wsim G1 H1 -> wsim G2 H2 -> wsim (seqw G1 G2) (fun b => b1 <- H1 b ;; H2 b1).
+Proof.
+  intros S1 S2 w b0. pose proof (S1 w b0) as P1. unfold seqw. destruct (H1 b0) as [b1|].
+  - destruct P1 as (ext1 & -> & E1). rewrite E1.
+    destruct (wr_bufs w ext1) as [o [u|e]] eqn:R.
+    + pose proof (S2 o (b0 ++ ext1)) as P2. destruct (H2 (b0 ++ ext1)) as [b2|].
+      * destruct P2 as (ext2 & -> & E2). exists (ext1 ++ ext2). split; [symmetry; apply app_assoc|].
+        rewrite E2. unfold wr_bufs in *. rewrite wr_from_app, R. destruct u. reflexivity.
+      * intros Hs. apply P2. destruct (wr_bufs_acc ext1 w Hs) as (o' & E' & Hso).
+        rewrite R in E'. injection E' as -> _. exact Hso.
+    + pose proof (S2 o (b0 ++ ext1)) as P2. destruct (H2 (b0 ++ ext1)) as [b2|].
+      * destruct P2 as (ext2 & -> & _). exists (ext1 ++ ext2). split; [symmetry; apply app_assoc|].
+        unfold wr_bufs in *. rewrite wr_from_app, R, wr_from_err. reflexivity.
+      * intros Hs. destruct (wr_bufs_acc ext1 w Hs) as (o' & E' & _). rewrite R in E'. discriminate E'.
+  - intros Hs. rewrite (P1 Hs). reflexivity.
+Qed.
+
+Lemma wsim_ext G G' H : (forall w, G' w = G w) -> wsim G H -> wsim G' H.
+Proof. intros Eq S w b0. rewrite Eq. apply S. Qed.
+
+Lemma wsim_oslot G buffer o :
+  (forall c, wsim (G (rn_color_view_of c)) (rn_buffer_write_to (buffer c))) ->
+  wsim (oslot G (option_map rn_color_view_of o)) (rn_write_ocolor buffer o).
+Proof.
+  intros S. destruct o as [c|]; cbn [option_map oslot rn_write_ocolor]; [apply S | apply wsim_ret].
+Qed.
+
+(* one fragment, built by a computation that may panic *)
+Lemma wsim_one (x : option (list N)) :
+  wsim (fun w => b <- x ;; Some (wa w b)) (rn_buffer_write_to x).
+Proof.
+  intros w b0. unfold rn_buffer_write_to. destruct x as [b|]; [|reflexivity].
+  exists [b]. split; reflexivity.
+Qed.
+
+(* the loop of Effects::write_to / EffectsDisplay::fmt: one fragment per index, `?` leaves the loop.  [step] is
+   the translated loop body; what is asked of it is what one iteration means *)
+Definition wfin (lr : W + sres) : sres := match lr with inl st => (st, inl tt) | inr p => p end.
+
+Lemma wsim_effects_loop (step : N -> W -> option (lctl W sres)) :
+  (forall i w, step i w =
+     match aget metadata i with
+     | Some md => match wa w (snd md) with
+                  | (o, inl _) => Some (LNext o)
+                  | (o, inr err) => Some (LRet (o, inr err))
+                  end
+     | None => None
+     end) ->
+  forall l w b0,
+    match rn_write_effects_loop l b0 with
+    | Some b1 => exists ext, b1 = b0 ++ ext /\ option_map wfin (for_list step l w) = Some (wr_bufs w ext)
+    | None => acc w -> for_list step l w = None
+    end.
+Proof.
+  intros Hstep. induction l as [|i t IH]; intros w b0; cbn [for_list rn_write_effects_loop].
+  - exists []. rewrite app_nil_r. auto.
+  - rewrite Hstep. destruct (aget metadata i) as [md|]; [|reflexivity].
+    destruct (wa w (snd md)) as [w1 [u|k]] eqn:R; cbv beta iota zeta.
+    + pose proof (IH w1 (b0 ++ [snd md])) as P. destruct (rn_write_effects_loop t (b0 ++ [snd md])) as [b1|].
+      * destruct P as (ext & -> & E1). exists (snd md :: ext). split; [rewrite <- app_assoc; reflexivity|].
+        rewrite E1, wr_bufs_cons, R. destruct u. reflexivity.
+      * intros Hs. apply P. destruct (acc_ok w (snd md) Hs) as (w' & E1 & Hs').
+        rewrite R in E1. injection E1 as -> _. exact Hs'.
+    + pose proof (IH w1 (b0 ++ [snd md])) as P. destruct (rn_write_effects_loop t (b0 ++ [snd md])) as [b1|].
+      * destruct P as (ext & -> & _). exists (snd md :: ext). split; [rewrite <- app_assoc; reflexivity|].
+        rewrite wr_bufs_cons, R, wr_from_err. reflexivity.
+      * intros Hs. destruct (acc_ok w (snd md) Hs) as (w' & E1 & _). rewrite R in E1. discriminate E1.
+Qed.
+
+(* the loop together with the iterator it runs over and the match after it *)
+Lemma wsim_effects_for (step : N -> W -> option (lctl W sres)) e (G : W -> option sres) :
+  (forall i w, step i w =
+     match aget metadata i with
+     | Some md => match wa w (snd md) with
+                  | (o, inl _) => Some (LNext o)
+                  | (o, inr err) => Some (LRet (o, inr err))
+                  end
+     | None => None
+     end) ->
+  (forall w, G w = (l <- e_index_iter e ;; option_map wfin (for_list step l w))) ->
+  wsim G (rn_write_effects e).
+Proof.
+  intros Hstep HG w b0. rewrite HG. unfold rn_write_effects. destruct (e_index_iter e) as [l|]; [|reflexivity].
+  pose proof (wsim_effects_loop step Hstep l w b0) as P. destruct (rn_write_effects_loop l b0) as [b1|].
+  - exact P.
+  - intros Hs. rewrite (P Hs). reflexivity.
+Qed.
+
+(* the whole Style: effects, fg, bg, underline (Generated/Render.v rn_write_order) *)
+Lemma wsim_style s Ge Gf Gb Gu :
+  wsim Ge (rn_write_effects (st_eff s)) ->
+  (forall c, wsim (Gf (rn_color_view_of c)) (rn_buffer_write_to (rn_color_fg_buffer c))) ->
+  (forall c, wsim (Gb (rn_color_view_of c)) (rn_buffer_write_to (rn_color_bg_buffer c))) ->
+  (forall c, wsim (Gu (rn_color_view_of c)) (rn_buffer_write_to (rn_color_ul_buffer c))) ->
+  wsim (seqw Ge (seqw (oslot Gf (rn_st_fg s)) (seqw (oslot Gb (rn_st_bg s)) (seqw (oslot Gu (rn_st_ul s)) retw))))
+       (rn_write_slots s rn_write_order).
+Proof.
+  intros Se Sf Sb Su. unfold rn_write_order, rn_st_fg, rn_st_bg, rn_st_ul.
+  refine (wsim_seq _ _ (rn_write_slot s RnEffects) (rn_write_slots s [RnFg; RnBg; RnUl]) Se _).
+  refine (wsim_seq _ _ (rn_write_slot s RnFg) (rn_write_slots s [RnBg; RnUl]) (wsim_oslot _ _ _ Sf) _).
+  refine (wsim_seq _ _ (rn_write_slot s RnBg) (rn_write_slots s [RnUl]) (wsim_oslot _ _ _ Sb) _).
+  refine (wsim_seq _ _ (rn_write_slot s RnUl) (rn_write_slots s []) (wsim_oslot _ _ _ Su) wsim_ret).
+Qed.
+
+(* what [wsim] says at the start (no fragment written yet) *)
+Lemma wsim_some G s bufs w :
+  wsim G (rn_write_slots s rn_write_order) -> rn_write_to s = Some bufs -> G w = Some (wr_bufs w bufs).
+Proof.
+  intros S E1. pose proof (S w []) as P. unfold rn_write_to in E1. rewrite E1 in P.
+  destruct P as (ext & -> & P). exact P.
+Qed.
+Lemma wsim_acc G s w :
+  wsim G (rn_write_slots s rn_write_order) -> acc w -> G w = option_map (wr_bufs w) (rn_write_to s).
+Proof.
+  intros S Hs. pose proof (S w []) as P. unfold rn_write_to.
+  destruct (rn_write_slots s rn_write_order []) as [b1|]; cbn [option_map].
+  - destruct P as (ext & -> & P). exact P.
+  - exact (P Hs).
+Qed.
+End Sink.
+
+(* ==== the core::fmt side: Display impls, Style::fmt_to, render / render_reset ===================
+   A Formatter is [rn_fmtr] (Model/Render.v): the hand model's [rn_fmt] (text written so far, alternate flag,
+   width / fill / align / precision) over a scripted sink; a translated `fmt` answers the new formatter and
+   the fmt::Result.  The hand model has no Result (its sink never fails): [ok_fmt] is "the hand model's
+   formatter over the sink that never fails, and Ok(())". *)
+
+Definition ok_fmt (x : option rn_fmt) : option (rn_fmtr * (unit + unit)) :=
+  option_map (fun f => (mkRnFmtr f [], inl tt)) x.
+
+(* impl Display for DisplayBuffer, on the buffer a translated builder returned *)
+Lemma gr_dbuf_fmt_shown x f : (d <- x ;; gr_dbuf_fmt d (mkRnFmtr f [])) = ok_fmt (rn_fmt_buffer (gr_shown x) f).
+Proof.
+  destruct x as [d|]; [|reflexivity]. unfold gr_dbuf_fmt, gr_shown, rn_fmt_buffer.
+  destruct (gr_as_str d); reflexivity.
+Qed.
+
+(* impl Display for NullFormatter *)
+Lemma gr_null_fmt_eq s f : Some (gr_null_fmt s (mkRnFmtr f [])) = ok_fmt (rn_fmt_null s f).
+Proof. reflexivity. Qed.
+
+(* impl Display for Reset, Reset::render *)
+Lemma gr_reset_fmt_eq f : Some (gr_reset_fmt (gr_reset_render tt) (mkRnFmtr f [])) = ok_fmt (rn_fmt_null rn_reset_str f).
+Proof. reflexivity. Qed.
+
+(* Color::render_fg / render_bg / render_underline shown through Display *)
+Lemma gr_color_fmt_fg c f :
+  (d <- gr_color_render_fg (rn_color_view_of c) ;; gr_dbuf_fmt d (mkRnFmtr f [])) = ok_fmt (rn_fmt_buffer (rn_color_fg_buffer c) f).
+Proof. rewrite gr_dbuf_fmt_shown. destruct (translated_buffers_are_model c) as (<- & _ & _). reflexivity. Qed.
+Lemma gr_color_fmt_bg c f :
+  (d <- gr_color_render_bg (rn_color_view_of c) ;; gr_dbuf_fmt d (mkRnFmtr f [])) = ok_fmt (rn_fmt_buffer (rn_color_bg_buffer c) f).
+Proof. rewrite gr_dbuf_fmt_shown. destruct (translated_buffers_are_model c) as (_ & <- & _). reflexivity. Qed.
+Lemma gr_color_fmt_ul c f :
+  (d <- gr_color_render_underline (rn_color_view_of c) ;; gr_dbuf_fmt d (mkRnFmtr f [])) = ok_fmt (rn_fmt_buffer (rn_color_ul_buffer c) f).
+Proof. rewrite gr_dbuf_fmt_shown. destruct (translated_buffers_are_model c) as (_ & _ & <-). reflexivity. Qed.
+
+(* impl Display for EffectsDisplay: the `for` over the translated index iterator (Generated/StyleFn.v,
+   drained: Proofs/StyleGen.v g_eff_index_iter_eq), one write_str per set effect *)
+Lemma gr_effects_fmt_eq e f : gr_effects_fmt e (mkRnFmtr f []) = ok_fmt (rn_fmt_effects e f).
+Proof.
+  unfold gr_effects_fmt, rn_fmt_effects, effd_f0.
+  change (iter_drain g_eff_index_iter_next (S (length metadata)) (g_eff_index_iter e)) with (g_eff_index_iter_items e).
+  rewrite g_eff_index_iter_eq. destruct (e_index_iter e) as [l|]; [|reflexivity].
+  match goal with |- context [for_list ?F l _] => set (step := F) end.
+  assert (L : forall l f, for_list step l (mkRnFmtr f []) =
+      option_map (fun f' => inl (mkRnFmtr f' [])) (rn_fmt_effects_loop l f) :> option (rn_fmtr + rn_fmtr * (unit + unit))).
+  { clear. induction l as [|i t IH]; intros f; [reflexivity|]. cbn [for_list rn_fmt_effects_loop].
+    unfold step at 1. destruct (aget metadata i) as [md|]; [|reflexivity].
+    unfold rn_fw_write_str, md_escape. cbn [fr_script fr_fmt]. cbv beta iota zeta. apply IH. }
+  rewrite L. destruct (rn_fmt_effects_loop l f); reflexivity.
+Qed.
+
+(* one colour slot of Style::fmt_to: `if let Some(c) = self.slot { c.render_x().fmt(f)?; }`.  The slot the
+   hand model renders NEXT (the outermost [rn_fmt_buffer]: the inner ones are applied to bound variables) must
+   be the one the translated code renders next *)
+Ltac fmt_slot_with lem c f render buffer :=
+  let H := fresh "H" in
+  pose proof (lem c f) as H;
+  destruct (render (rn_color_view_of c)); [rewrite H|];
+  destruct (rn_fmt_buffer (buffer c) f); try discriminate H; try reflexivity; clear H;
+  cbn [ok_fmt option_map]; cbv beta iota zeta.
+Ltac fmt_slot :=
+  match goal with
+  | |- context [rn_fmt_buffer (rn_color_fg_buffer ?c) ?f] => fmt_slot_with gr_color_fmt_fg c f gr_color_render_fg rn_color_fg_buffer
+  | |- context [rn_fmt_buffer (rn_color_bg_buffer ?c) ?f] => fmt_slot_with gr_color_fmt_bg c f gr_color_render_bg rn_color_bg_buffer
+  | |- context [rn_fmt_buffer (rn_color_ul_buffer ?c) ?f] => fmt_slot_with gr_color_fmt_ul c f gr_color_render_underline rn_color_ul_buffer
+  end.
+
+Lemma gr_style_fmt_to_eq s f : gr_style_fmt_to s (mkRnFmtr f []) = ok_fmt (rn_style_fmt_to s f).
+Proof.
+  unfold gr_style_fmt_to, rn_style_fmt_to, rn_fmt_order. cbn [rn_fmt_slots rn_fmt_slot].
+  rewrite g_eff_render_eq, gr_effects_fmt_eq.
+  destruct (rn_fmt_effects (st_eff s) f) as [f1|]; [|reflexivity]. cbn [ok_fmt option_map]. cbv beta iota zeta.
+  unfold rn_st_fg, rn_st_bg, rn_st_ul, rn_fmt_ocolor.
+  destruct (st_fg s) as [c1|], (st_bg s) as [c2|], (st_ul s) as [c3|]; cbn [option_map]; repeat fmt_slot; reflexivity.
+Qed.
+
+(* Style::render_reset: the NullFormatter's text *)
+Lemma gr_style_render_reset_eq s : gr_style_render_reset s = rn_render_reset s.
+Proof.
+  unfold gr_style_render_reset, rn_render_reset, rn_nf_new. rewrite g_st_new_eq.
+  destruct (style_eqb s st_new); reflexivity.     (* `!=` or `==` with the branches swapped *)
+Qed.
+
+(* impl Display for Style: `{:#}` is render_reset, anything else fmt_to *)
+Lemma gr_style_fmt_eq s f : gr_style_fmt s (mkRnFmtr f []) = ok_fmt (rn_style_fmt s f).
+Proof.
+  unfold gr_style_fmt, rn_style_fmt, fr_alternate. cbn [fr_fmt]. rewrite gr_style_render_reset_eq, gr_style_fmt_to_eq.
+  destruct (fm_alternate f); cbn [negb]; try destruct (rn_style_fmt_to s f); reflexivity.
+Qed.
+
+(* impl Display for StyleDisplay, on what Style::render returns *)
+Lemma gr_style_display_fmt_eq s f : gr_style_display_fmt (gr_style_render s) (mkRnFmtr f []) = ok_fmt (rn_style_fmt_to s f).
+Proof.
+  unfold gr_style_display_fmt, gr_style_render, rn_sd_f0, rn_sd_new. rewrite gr_style_fmt_to_eq.
+  destruct (rn_style_fmt_to s f); reflexivity.
+Qed.
+
+(* ---- format!("{:<flags>}", x): a fresh String (a sink that never fails), the Display impl, the text; an Err
+   from a Display impl makes format! / to_string panic *)
+Definition gr_format (alternate : bool) (flags : rn_flags) (fmt : rn_fmtr -> option (rn_fmtr * (unit + unit))) : option (list N) :=
+  '(f, r) <- fmt (mkRnFmtr (mkRnFmt alternate flags []) []) ;;
+  match r with inl _ => Some (fm_out (fr_fmt f)) | inr _ => None end.
+
+Lemma gr_format_ok alternate flags fmt hand :
+  (forall f, fmt (mkRnFmtr f []) = ok_fmt (hand f)) -> gr_format alternate flags fmt = rn_format alternate flags hand.
+Proof.
+  intros H. unfold gr_format, rn_format. rewrite H. destruct (hand _); reflexivity.
+Qed.
+
+(* format!("{..}", style) *)
+Theorem translated_display_is_model alternate flags s :
+  gr_format alternate flags (gr_style_fmt s) = rn_display alternate flags s.
+Proof. apply gr_format_ok. intros f. apply gr_style_fmt_eq. Qed.
+
+(* format!("{..}", style.render()) *)
+Theorem translated_render_is_model alternate flags s :
+  gr_format alternate flags (gr_style_display_fmt (gr_style_render s)) = rn_display_render alternate flags s.
+Proof. apply gr_format_ok. intros f. apply gr_style_display_fmt_eq. Qed.
+
+(* style.render().to_string() *)
+Definition gr_render_style (s : style) : option (list N) :=
+  gr_format false rn_no_flags (gr_style_display_fmt (gr_style_render s)).
+
+Theorem translated_render_style_is_model s : gr_render_style s = rn_render_style s.
+Proof. apply translated_render_is_model. Qed.
+
+(* format!("{..}", style.render_reset()) *)
+Theorem translated_render_reset_is_model alternate flags s :
+  gr_format alternate flags (fun f => Some (gr_null_fmt (gr_style_render_reset s) f)) = rn_display_reset_of alternate flags s.
+Proof. apply gr_format_ok. intros f. rewrite gr_style_render_reset_eq. apply gr_null_fmt_eq. Qed.
+
+(* the other Display values: Effects::render, Color::render_fg / render_bg, AnsiColor::render_fg / render_bg
+   (a NullFormatter over as_fg_str / as_bg_str), Reset / Reset.render() *)
+Theorem translated_displays_are_model alternate flags :
+  (forall e, gr_format alternate flags (gr_effects_fmt (g_eff_render e)) = rn_display_effects alternate flags e) /\
+  (forall c, gr_format alternate flags (fun f => d <- gr_color_render_fg (rn_color_view_of c) ;; gr_dbuf_fmt d f)
+             = rn_display_color_fg alternate flags c) /\
+  (forall c, gr_format alternate flags (fun f => d <- gr_color_render_bg (rn_color_view_of c) ;; gr_dbuf_fmt d f)
+             = rn_display_color_bg alternate flags c) /\
+  (forall a, gr_format alternate flags (fun f => nf <- gr_ansi_render_fg a ;; Some (gr_null_fmt nf f))
+             = rn_display_ansi_fg alternate flags a) /\
+  (forall a, gr_format alternate flags (fun f => nf <- gr_ansi_render_bg a ;; Some (gr_null_fmt nf f))
+             = rn_display_ansi_bg alternate flags a) /\
+  gr_format alternate flags (fun f => Some (gr_reset_fmt (gr_reset_render tt) f)) = rn_display_reset alternate flags.
+Proof.
+  refine (conj _ (conj _ (conj _ (conj _ (conj _ _))))).
+  - intros e. apply gr_format_ok. intros f. rewrite g_eff_render_eq. apply gr_effects_fmt_eq.
+  - intros c. apply gr_format_ok. intros f. apply gr_color_fmt_fg.
+  - intros c. apply gr_format_ok. intros f. apply gr_color_fmt_bg.
+  - intros a. apply gr_format_ok. intros f. unfold gr_ansi_render_fg. rewrite gr_ansi_fg_str_eq. reflexivity.
+  - intros a. apply gr_format_ok. intros f. unfold gr_ansi_render_bg. rewrite gr_ansi_bg_str_eq. reflexivity.
+  - apply gr_format_ok. intros f. apply gr_reset_fmt_eq.
+Qed.
+
+(* Ansi256Color / RgbColor::render_fg / render_bg return the as_*_buffer value *)
+Theorem translated_color_renders_are_buffers :
+  (forall n, gr_shown (gr_a256_render_fg n) = rn_ansi256_fg_buffer n) /\
+  (forall n, gr_shown (gr_a256_render_bg n) = rn_ansi256_bg_buffer n) /\
+  (forall r g b, gr_shown (gr_rgb_render_fg (r, g, b)) = rn_rgb_fg_buffer r g b) /\
+  (forall r g b, gr_shown (gr_rgb_render_bg (r, g, b)) = rn_rgb_bg_buffer r g b).
+Proof.
+  refine (conj _ (conj _ (conj _ _))); intros.
+  - unfold gr_a256_render_fg. rewrite (bind_some_id' (gr_a256_fg_buffer n)). apply shown_of_sim, gr_a256_fg_sim.
+  - unfold gr_a256_render_bg. rewrite (bind_some_id' (gr_a256_bg_buffer n)). apply shown_of_sim, gr_a256_bg_sim.
+  - unfold gr_rgb_render_fg. rewrite (bind_some_id' (gr_rgb_fg_buffer (r, g, b))). apply shown_of_sim, gr_rgb_fg_sim.
+  - unfold gr_rgb_render_bg. rewrite (bind_some_id' (gr_rgb_bg_buffer (r, g, b))). apply shown_of_sim, gr_rgb_bg_sim.
+Qed.
+
+(* ---- Style::fmt_to on ANY formatter: a sink that fails.  The fragments are the buffers of the hand model's
+   write_to ([rn_write_to]; their concatenation is what render() shows: Proofs/Render.v paths_agree), each handed
+   to Formatter::write_str; the first fmt::Error is returned and nothing more is written *)
+Definition fr_never_fails (f : rn_fmtr) : Prop := fr_script f = [].
+
+Lemma fr_acc_ok f b : fr_never_fails f -> exists f1, rn_fw_write_str f b = (f1, inl tt) /\ fr_never_fails f1.
+Proof.
+  unfold fr_never_fails, rn_fw_write_str. intros ->. eexists. split; reflexivity.
+Qed.
+
+Notation fsim := (wsim rn_fw_write_str fr_never_fails).
+Notation fw_bufs := (wr_bufs rn_fw_write_str).
+
+Lemma fsim_buffer x : fsim (fun f => d <- x ;; gr_dbuf_fmt d f) (rn_buffer_write_to (gr_shown x)).
+Proof.
+  eapply wsim_ext; [|apply (wsim_one rn_fw_write_str fr_never_fails (gr_shown x))].
+  intros f. unfold gr_shown, gr_dbuf_fmt. destruct x as [d|]; [|reflexivity].
+  destruct (gr_as_str d) as [b|]; [|reflexivity]. destruct (rn_fw_write_str f b). reflexivity.
+Qed.
+
+Lemma fsim_color_fg c : fsim (fun f => d <- gr_color_render_fg (rn_color_view_of c) ;; gr_dbuf_fmt d f)
+                             (rn_buffer_write_to (rn_color_fg_buffer c)).
+Proof. destruct (translated_buffers_are_model c) as (<- & _ & _). apply fsim_buffer. Qed.
+Lemma fsim_color_bg c : fsim (fun f => d <- gr_color_render_bg (rn_color_view_of c) ;; gr_dbuf_fmt d f)
+                             (rn_buffer_write_to (rn_color_bg_buffer c)).
+Proof. destruct (translated_buffers_are_model c) as (_ & <- & _). apply fsim_buffer. Qed.
+Lemma fsim_color_ul c : fsim (fun f => d <- gr_color_render_underline (rn_color_view_of c) ;; gr_dbuf_fmt d f)
+                             (rn_buffer_write_to (rn_color_ul_buffer c)).
+Proof. destruct (translated_buffers_are_model c) as (_ & _ & <-). apply fsim_buffer. Qed.
+
+Lemma fsim_effects e : fsim (gr_effects_fmt e) (rn_write_effects e).
+Proof.
+  unfold gr_effects_fmt, effd_f0.
+  change (iter_drain g_eff_index_iter_next (S (length metadata)) (g_eff_index_iter e)) with (g_eff_index_iter_items e).
+  rewrite g_eff_index_iter_eq.
+  match goal with |- context [for_list ?F _ _] => set (step := F) end.
+  apply (wsim_effects_for rn_fw_write_str fr_never_fails fr_acc_ok step e).
+  - intros i f. unfold step, md_escape. destruct (aget metadata i); reflexivity.
+  - intros f. destruct (e_index_iter e) as [l|]; [|reflexivity]. unfold sres.
+    destruct (for_list step l f) as [[st|[st rv]]|]; reflexivity.
+Qed.
+
+(* Style::fmt_to is the sequence effects, fg, bg, underline; every `?` returns the error *)
+Lemma gr_style_fmt_to_shape s f :
+  gr_style_fmt_to s f =
+  seqw (gr_effects_fmt (g_eff_render (st_eff s)))
+    (seqw (oslot (fun v f => d <- gr_color_render_fg v ;; gr_dbuf_fmt d f) (rn_st_fg s))
+      (seqw (oslot (fun v f => d <- gr_color_render_bg v ;; gr_dbuf_fmt d f) (rn_st_bg s))
+        (seqw (oslot (fun v f => d <- gr_color_render_underline v ;; gr_dbuf_fmt d f) (rn_st_ul s)) retw))) f.
+Proof.
+  unfold gr_style_fmt_to, seqw, oslot, retw.
+  destruct (gr_effects_fmt (g_eff_render (st_eff s)) f) as [[f1 [[]|e]]|]; try reflexivity. cbv beta iota zeta.
+  destruct (rn_st_fg s) as [c1|], (rn_st_bg s) as [c2|], (rn_st_ul s) as [c3|];
+    repeat (cbv beta iota zeta;
+            match goal with
+            | |- context [gr_color_render_fg ?c] => destruct (gr_color_render_fg c) as [?d|]
+            | |- context [gr_color_render_bg ?c] => destruct (gr_color_render_bg c) as [?d|]
+            | |- context [gr_color_render_underline ?c] => destruct (gr_color_render_underline c) as [?d|]
+            | |- context [gr_dbuf_fmt ?d ?x] => destruct (gr_dbuf_fmt d x) as [[? [[]|?]]|]
+            end); reflexivity.
+Qed.
+
+Lemma gr_style_fmt_to_sim s : fsim (gr_style_fmt_to s) (rn_write_slots s rn_write_order).
+Proof.
+  eapply wsim_ext; [intros f; apply gr_style_fmt_to_shape|]. rewrite g_eff_render_eq.
+  apply (wsim_style rn_fw_write_str fr_never_fails fr_acc_ok s).
+  - apply fsim_effects.
+  - apply fsim_color_fg.
+  - apply fsim_color_bg.
+  - apply fsim_color_ul.
+Qed.
+
+Theorem translated_fmt_to_any_sink s bufs f :
+  rn_write_to s = Some bufs -> gr_style_fmt_to s f = Some (fw_bufs f bufs).
+Proof. apply (wsim_some rn_fw_write_str fr_never_fails), gr_style_fmt_to_sim. Qed.
+
+(* ==== the io::Write side: DisplayBuffer::write_to, Color::write_*_to, Effects::write_to, Style::write_to,
+   Style::write_reset_to =============================================================================
+   `write: &mut dyn io::Write` is the scripted writer of Spec/Io.v (it may accept short, fail, be
+   interrupted); `write.write_all(buf)` is std's default method [w_write_all]. *)
+
+Definition w_never_fails (w : writer) : Prop := w_script w = [].
+
+Lemma w_acc_ok w b : w_never_fails w -> exists w1, w_write_all w b = (w1, inl tt) /\ w_never_fails w1.
+Proof.
+  intros Hs. destruct (w_write_all_accept_all w b Hs) as (w1 & E1 & Hs1 & _). exists w1. auto.
+Qed.
+
+Notation iosim := (wsim w_write_all w_never_fails).
+Notation io_bufs := (wr_bufs w_write_all).
+
+(* an accept-all writer receives the concatenation *)
+Lemma io_bufs_received bufs : forall w, w_script w = [] ->
+  exists o, io_bufs w bufs = (o, inl tt) /\ w_received o = w_received w ++ concat bufs.
+Proof.
+  induction bufs as [|b t IH]; intros w Hs.
+  - exists w. cbn. rewrite app_nil_r. auto.
+  - destruct (w_write_all_accept_all w b Hs) as (w1 & E1 & Hs1 & Hr1).
+    destruct (IH w1 Hs1) as (o & Eo & Hro). exists o. rewrite wr_bufs_cons, E1. split; [exact Eo|].
+    rewrite Hro, Hr1. cbn [concat]. rewrite app_assoc. reflexivity.
+Qed.
+
+(* DisplayBuffer::write_to on the buffer a translated builder returned *)
+Lemma iosim_buffer x : iosim (fun w => d <- x ;; gr_dbuf_write_to d w) (rn_buffer_write_to (gr_shown x)).
+Proof.
+  eapply wsim_ext; [|apply (wsim_one w_write_all w_never_fails (gr_shown x))].
+  intros w. unfold gr_shown, gr_dbuf_write_to. destruct x as [d|]; [|reflexivity].
+  destruct (gr_as_str d) as [b|]; [|reflexivity]. destruct (w_write_all w b). reflexivity.
+Qed.
+
+(* Color::write_fg_to / write_bg_to / write_underline_to: the buffer of render_*, then write_to *)
+Lemma gr_color_write_fg_to_shape v w : gr_color_write_fg_to v w = (d <- gr_color_render_fg v ;; gr_dbuf_write_to d w).
+Proof.
+  unfold gr_color_write_fg_to, gr_color_render_fg. destruct v;
+    match goal with |- context [match ?x with Some r => Some r | None => None end] => destruct x as [d|] end;
+    try reflexivity; destruct (gr_dbuf_write_to d w) as [[? ?]|]; reflexivity.
+Qed.
+Lemma gr_color_write_bg_to_shape v w : gr_color_write_bg_to v w = (d <- gr_color_render_bg v ;; gr_dbuf_write_to d w).
+Proof.
+  unfold gr_color_write_bg_to, gr_color_render_bg. destruct v;
+    match goal with |- context [match ?x with Some r => Some r | None => None end] => destruct x as [d|] end;
+    try reflexivity; destruct (gr_dbuf_write_to d w) as [[? ?]|]; reflexivity.
+Qed.
+Lemma gr_color_write_underline_to_shape v w :
+  gr_color_write_underline_to v w = (d <- gr_color_render_underline v ;; gr_dbuf_write_to d w).
+Proof.
+  unfold gr_color_write_underline_to, gr_color_render_underline. destruct v;
+    match goal with |- context [match ?x with Some r => Some r | None => None end] => destruct x as [d|] end;
+    try reflexivity; destruct (gr_dbuf_write_to d w) as [[? ?]|]; reflexivity.
+Qed.
+
+Lemma iosim_color_fg c : iosim (gr_color_write_fg_to (rn_color_view_of c)) (rn_buffer_write_to (rn_color_fg_buffer c)).
+Proof.
+  destruct (translated_buffers_are_model c) as (<- & _ & _).
+  eapply wsim_ext; [intros w; apply gr_color_write_fg_to_shape | apply iosim_buffer].
+Qed.
+Lemma iosim_color_bg c : iosim (gr_color_write_bg_to (rn_color_view_of c)) (rn_buffer_write_to (rn_color_bg_buffer c)).
+Proof.
+  destruct (translated_buffers_are_model c) as (_ & <- & _).
+  eapply wsim_ext; [intros w; apply gr_color_write_bg_to_shape | apply iosim_buffer].
+Qed.
+Lemma iosim_color_ul c : iosim (gr_color_write_underline_to (rn_color_view_of c)) (rn_buffer_write_to (rn_color_ul_buffer c)).
+Proof.
+  destruct (translated_buffers_are_model c) as (_ & _ & <-).
+  eapply wsim_ext; [intros w; apply gr_color_write_underline_to_shape | apply iosim_buffer].
+Qed.
+
+(* Effects::write_to: one write_all per set effect, the first error leaves the loop *)
+Lemma iosim_effects e : iosim (gr_effects_write_to e) (rn_write_effects e).
+Proof.
+  unfold gr_effects_write_to.
+  change (iter_drain g_eff_index_iter_next (S (length metadata)) (g_eff_index_iter e)) with (g_eff_index_iter_items e).
+  rewrite g_eff_index_iter_eq.
+  match goal with |- context [for_list ?F _ _] => set (step := F) end.
+  apply (wsim_effects_for w_write_all w_never_fails w_acc_ok step e).
+  - intros i w. unfold step, md_escape. destruct (aget metadata i); reflexivity.
+  - intros w. destruct (e_index_iter e) as [l|]; [|reflexivity]. unfold sres.
+    destruct (for_list step l w) as [[st|[st rv]]|]; reflexivity.
+Qed.
+
+(* Style::write_to is the sequence effects, fg, bg, underline; every `?` returns the error *)
+Lemma gr_style_write_to_shape s w :
+  gr_style_write_to s w =
+  seqw (gr_effects_write_to (st_eff s))
+    (seqw (oslot gr_color_write_fg_to (rn_st_fg s))
+      (seqw (oslot gr_color_write_bg_to (rn_st_bg s))
+        (seqw (oslot gr_color_write_underline_to (rn_st_ul s)) retw))) w.
+Proof.
+  unfold gr_style_write_to, seqw, oslot, retw.
+  destruct (gr_effects_write_to (st_eff s) w) as [[w1 [[]|e]]|]; try reflexivity. cbv beta iota zeta.
+  destruct (rn_st_fg s) as [c1|], (rn_st_bg s) as [c2|], (rn_st_ul s) as [c3|];
+    repeat (cbv beta iota zeta;
+            match goal with
+            | |- context [gr_color_write_fg_to ?c ?x] => destruct (gr_color_write_fg_to c x) as [[? [[]|?]]|]
+            | |- context [gr_color_write_bg_to ?c ?x] => destruct (gr_color_write_bg_to c x) as [[? [[]|?]]|]
+            | |- context [gr_color_write_underline_to ?c ?x] => destruct (gr_color_write_underline_to c x) as [[? [[]|?]]|]
+            end); reflexivity.
+Qed.
+
+Lemma gr_style_write_to_sim s : iosim (gr_style_write_to s) (rn_write_slots s rn_write_order).
+Proof.
+  eapply wsim_ext; [intros w; apply gr_style_write_to_shape|].
+  apply (wsim_style w_write_all w_never_fails w_acc_ok s).
+  - apply iosim_effects.
+  - apply iosim_color_fg.
+  - apply iosim_color_bg.
+  - apply iosim_color_ul.
+Qed.
+
+(* Style::write_to, any writer: the buffers of the hand model, written in order with write_all; the first
+   error is returned and nothing more is written *)
+Theorem translated_write_to_is_model s bufs w :
+  rn_write_to s = Some bufs -> gr_style_write_to s w = Some (io_bufs w bufs).
+Proof. apply (wsim_some w_write_all w_never_fails), gr_style_write_to_sim. Qed.
+
+(* ... and on a writer that never fails, a panic included *)
+Theorem translated_write_to_accept_all s w :
+  w_script w = [] -> gr_style_write_to s w = option_map (io_bufs w) (rn_write_to s).
+Proof. apply (wsim_acc w_write_all w_never_fails), gr_style_write_to_sim. Qed.
+
+(* what such a writer has received is what `render()` shows (Proofs/Render.v paths_agree) *)
+Theorem translated_write_to_bytes s bs :
+  rn_render_style s = Some bs ->
+  exists w, gr_style_write_to s (writer_of []) = Some (w, inl tt) /\ w_received w = bs.
+Proof.
+  intros E. rewrite <- paths_agree in E. destruct (rn_write_to s) as [bufs|] eqn:Eb; [|discriminate E].
+  injection E as <-. rewrite (translated_write_to_is_model s bufs _ Eb).
+  destruct (io_bufs_received bufs (writer_of []) eq_refl) as (o & -> & Hr). exists o. split; [reflexivity|exact Hr].
+Qed.
+
+(* Style::write_reset_to *)
+Theorem translated_write_reset_to_is_model s w :
+  gr_style_write_reset_to s w = Some (io_bufs w (rn_write_reset_to s)).
+Proof.
+  unfold gr_style_write_reset_to, rn_write_reset_to. rewrite g_st_new_eq.
+  destruct (style_eqb s st_new); cbn [negb]; try reflexivity;
+    rewrite wr_bufs_cons; destruct (w_write_all w rn_reset_str); reflexivity.
+Qed.
+
+(* ==== the conversions into Color and the `on` / `on_default` constructors of a Style (color.rs) ========
+   over the Rust enum [rn_color_view]; [rn_color_of_view] is the colour of Model/Style.v.  Style::new /
+   fg_color / bg_color are the functions of Model/Style.v (translated and proved in StyleFn / StyleGen). *)
+
+Lemma rn_color_of_view_of c : rn_color_of_view (rn_color_view_of c) = c.
+Proof. destruct c; reflexivity. Qed.
+
+Theorem translated_color_from_is_model :
+  (forall a, rn_color_of_view (gr_color_from_ansi a) = CoAnsi a) /\
+  (forall n, rn_color_of_view (gr_color_from_a256 n) = CoAnsi256 n) /\
+  (forall r g b, rn_color_of_view (gr_color_from_rgb (r, g, b)) = CoRgb r g b) /\
+  (forall n, rn_color_of_view (gr_color_from_u8 n) = CoAnsi256 n) /\
+  (forall r g b, rn_color_of_view (gr_color_from_tuple (r, g, b)) = CoRgb r g b) /\
+  (forall n, gr_a256_from_u8 n = n) /\
+  (forall r g b, gr_rgb_from_tuple (r, g, b) = (r, g, b)).
+Proof. repeat split. Qed.
+
+(* `fg.on(bg)` = Style::new().fg_color(Some(fg)).bg_color(Some(bg)), `fg.on_default()` = ..fg_color(Some(fg)) *)
+Definition st_on (fg bg : color) : style := st_bg_color (st_fg_color st_new (Some fg)) (Some bg).
+Definition st_on_default (fg : color) : style := st_fg_color st_new (Some fg).
+
+Theorem translated_on_is_model :
+  (forall c b, gr_color_on (rn_color_view_of c) (rn_color_view_of b) = st_on c b) /\
+  (forall a b, gr_ansi_on a (rn_color_view_of b) = st_on (CoAnsi a) b) /\
+  (forall n b, gr_a256_on n (rn_color_view_of b) = st_on (CoAnsi256 n) b) /\
+  (forall r g bl b, gr_rgb_on (r, g, bl) (rn_color_view_of b) = st_on (CoRgb r g bl) b) /\
+  (forall c, gr_color_on_default (rn_color_view_of c) = st_on_default c) /\
+  (forall a, gr_ansi_on_default a = st_on_default (CoAnsi a)) /\
+  (forall n, gr_a256_on_default n = st_on_default (CoAnsi256 n)) /\
+  (forall r g bl, gr_rgb_on_default (r, g, bl) = st_on_default (CoRgb r g bl)).
+Proof.
+  unfold gr_color_on, gr_ansi_on, gr_a256_on, gr_rgb_on, gr_color_on_default, gr_ansi_on_default, gr_a256_on_default,
+    gr_rgb_on_default, st_on, st_on_default, rn_st_fg_color, rn_st_bg_color.
+  rewrite g_st_new_eq.
+  refine (conj _ (conj _ (conj _ (conj _ (conj _ (conj _ (conj _ _))))))); intros; cbn [option_map];
+    rewrite ?rn_color_of_view_of; reflexivity.
+Qed.
+
+(* ==== the theorems of C05 about the translated code ================================================== *)
+
+(* what `style.render().to_string()` of the TRANSLATED code gives is SGR only and reads back as the style *)
+Theorem translated_render_roundtrip s :
+  rn_wf (rn_sstyle s) -> rn_at_most_one_underline_kind (rn_sstyle s) ->
+  exists bs, gr_render_style s = Some bs /\
+             spec_events bs = map rn_sgr (rn_groups_of (rn_sstyle s)) /\
+             rn_interp_style (spec_events bs) style_default = rn_norm (rn_sstyle s).
+Proof.
+  intros Hwf H1. rewrite translated_render_style_is_model.
+  destruct (render_is_sgr_only s Hwf) as (bs & E & Hev).
+  destruct (render_roundtrip s Hwf H1) as (bs' & E' & Hrt). rewrite E in E'. injection E' as <-.
+  exists bs. auto.
+Qed.
+
+(* `{}` of the translated Display is render, `{:#}` is render_reset, whatever width / fill / align / precision *)
+Theorem translated_display_forms flags s :
+  gr_format false flags (gr_style_fmt s) = gr_render_style s /\
+  gr_format true flags (gr_style_fmt s) = Some (gr_style_render_reset s).
+Proof.
+  rewrite !translated_display_is_model, translated_render_style_is_model, gr_style_render_reset_eq.
+  apply display_forms.
+Qed.
